@@ -575,7 +575,7 @@ func c09Gen(rt *rapid.T) c09Case {
 	c.Attempts = rapid.SliceOfN(rapid.Custom(func(rt *rapid.T) c09Attempt {
 		a := c09Attempt{Outcome: rapid.SampledFrom(outcomes).Draw(rt, "outcome")}
 		if a.Outcome == "refuse" {
-			a.Code = rapid.IntRange(1, 5).Draw(rt, "code")
+			a.Code = rapid.SampledFrom([]int{1, 2, 3, 4, 5, 6, 0x80, 0x84, 255}).Draw(rt, "code")
 		}
 		if a.Outcome == "dialErr" {
 			// the flavour of the dial error: plain, or one that has a context error in its chain (a dialler with its
